@@ -23,16 +23,16 @@ def modelAccesses : List (String × String × String × String) := [
   ("QueueReader::endRead", "readIndex", "store", "release")
 ]
 
-/-- The accesses of the NON-ATOMIC `dataEnd`, with the conditions they are executed under.  The model's consumer step
-    (`cBegin`) reads `E` only when the indices it loaded satisfy `r > w` (wrapped data): then the write of `E` that it can see
-    happened before the release store of the `W` it acquired.  With `r ≤ w` nothing orders the read against the producer's
-    NEXT wrap, which is why an unconditional read is a data race (C10).  The producer's own read (`unreadWriteSize`) and write
-    (`maximizeWriteCapacity`, wrap branch) are on the producer thread. -/
-def modelPlainAccesses : List (String × String × String × String) := [
-  ("QueueWriter::unreadWriteSize", "dataEnd", "read", "!(r<=w)"),
-  ("QueueWriter::maximizeWriteCapacity", "dataEnd", "write", "!(w<r) && !(rightSize>=leftSize)"),
-  ("QueueReader::beginRead", "dataEnd", "read", "!(r<=w)"),
-  ("QueueReader::beginRead", "dataEnd", "read", "r<_queue->dataEnd && !(r<=w)")
+/-- The functions that access the NON-ATOMIC `dataEnd`.  The model's consumer step (`cBegin`) reads `E` only when the indices
+    it loaded satisfy `r > w` (wrapped data): then the write of `E` that it can see happened before the release store of the
+    `W` it acquired.  With `r ≤ w` nothing orders the read against the producer's NEXT wrap, which is why an unconditional
+    read is a data race (C10).  The producer's own read (`unreadWriteSize`) and write (`maximizeWriteCapacity`, wrap branch)
+    are on the producer thread.  That the code reads/writes under exactly these conditions is proved from the translated
+    source: `SrcBridge.beginRead_dataEnd`, `unreadWriteSize_dataEnd`, `maximizeWriteCapacity_dataEnd`. -/
+def modelPlainAccesses : List (String × String × String) := [
+  ("QueueWriter::unreadWriteSize", "dataEnd", "read"),
+  ("QueueWriter::maximizeWriteCapacity", "dataEnd", "write"),
+  ("QueueReader::beginRead", "dataEnd", "read")
 ]
 
 end BinlogVerif.Q
